@@ -84,6 +84,7 @@ def run(ctx, rep):
 
     memhash_pairing(P, rep, 'R-C04-1p')
     block_size_rule(P, rep, 'R-C04-7')
+    bypass_rule(P, rep, 'R-C04-1b')
     # coverage of the percentage plans: the derived limits select exactly the quota (a stripe the plan covers is never skipped)
     from .C15 import quota_rule
     cands = [f_ for f_ in P.variants('block_is_enabled') if (f_.file or '').endswith('scrub.c')]
@@ -297,8 +298,8 @@ def run(ctx, rep):
                         if v is not None and v.op == 'add' and g.expr(v.ops[0]) == name:
                             res.append(i)
                 return res
-            bads = [i for i in g.all_insts() if i.op == 'store' and g.expr(i.ops[1]).endswith('.is_bad') and g.const_of(i.ops[0]) == 1]
-            ok2 = must_increment(g, mis, incs_of('error'), latches + [inner]) and must_increment(g, mis, incs_of('failed_count'), latches + [inner]) and must_increment(g, mis, bads, latches + [inner])
+            bads = is_bad_sites(P, g, 1)
+            ok2 = must_increment(g, mis, incs_of('error'), latches + [inner]) and must_increment(g, mis, incs_of('failed_count') + [x for x in bads if x.op == 'call'], latches + [inner]) and must_increment(g, mis, bads, latches + [inner])
     rep.check(ok2, 'R-C04-2', 'check: data mismatch registers failed[] with is_bad and counts an error', c.loc(), '', function='state_check_process', construct='data mismatch')
     pc = parity_compares(g)
     ok3 = len(pc) == 1
@@ -401,3 +402,79 @@ def block_size_rule(P, rep, rid):
                 ok = sizes == want
             rep.check(ok, rid, 'size %d, block size %d' % (size, bs), fb.file, 'blockmax %s, block sizes %s' % (bm, sizes) if ok else 'blockmax %s (expected %d), block sizes %s: they do not partition the %d bytes of the file' % (bm, want_bm, sizes, size),
                       function='file_block_size', construct='block size partition')
+
+
+def bypass_rule(P, rep, rid):
+    """which conditions let check skip the verification of a block that has a file: a file flag may do it only if it is the flag the
+    selection sets (excluded), and a block state only if the state carries no current hash (CHG) or no file (DELETED)"""
+    from .C06 import blk_value
+    import re as _re
+    f = P.fn('state_check_process')
+    rep.rule(rid, 'check: the hash verification of a block is bypassed by a file flag only for files excluded by the selection, and by a block state only for states without a current hash', 2)
+    hc = hash_compares(f)
+    if not hc:
+        raise AnalysisBroken('state_check_process: hash comparison not found')
+    H = hc[0]
+    h = f.loop_of(H.block)
+    if h is None:
+        raise AnalysisBroken('state_check_process: hash comparison is not inside the disk loop')
+    stop = {f.blocks[h][0].id}
+    # the flag of the selection: what state_filter sets on files
+    sf = P.fn('state_filter')
+    excl = {sf.const_of(c.ops[1]) for c in sf.calls('file_flag_set')}
+    st = blk_value(P)
+    rf = P.fn('state_read_content')
+    known = set(st.values())
+    deleted = [rf.const_of(c.ops[1]) for c in rf.calls('block_state_set') if rf.const_of(c.ops[1]) not in known]
+    allowed_states = {st['CHG']} | set(deleted)
+    flag_byp, state_byp = [], []
+    for b_ in sorted(f.loops[h]):
+        t = f.term(b_)
+        if t.op != 'br' or len(t.ops) != 3 or H.id not in f.reach([t]):
+            continue
+        outs = [(True, t.ops[2][1]), (False, t.ops[1][1])]
+        r = {v: H.id in f.reach([f.blocks[o][0]], stop=stop, include_start=True) for v, o in outs}
+        if r[True] == r[False]:
+            continue
+        e = f.xexpr(t.ops[0]).replace(' ', '')
+        skip_when = not r[True]          # outcome of the condition that skips the verification
+        m1 = _re.match(r'^\(file_flag_has\((.*),(\d+)\)(!=|==)0\)$', e)
+        if m1:
+            has_flag = skip_when if m1.group(3) == '!=' else not skip_when
+            flag_byp.append((int(m1.group(2)), has_flag, t))
+        from ..guards import state_test
+        t2 = state_test(e)
+        if t2:
+            eq_skips = skip_when if t2[2] else not skip_when
+            if eq_skips:
+                state_byp.append((t2[1], t))
+    badf = [(k, t.line) for k, hf, t in flag_byp if not (hf and k in excl)]
+    rep.check(bool(flag_byp) and not badf, rid, 'flag-based bypass only for the excluded flag', flag_byp[0][2].loc() if flag_byp else f.file,
+              'bypassing flags %s; selection flag %s' % (sorted({k for k, _, _ in flag_byp}), sorted(excl)) if not badf else 'blocks of files carrying flag(s) %s are not verified (lines %s): a second damaged block of the same file is never reported' % (sorted({k for k, _ in badf}), [l for _, l in badf]),
+              function='state_check_process', construct='flag bypass')
+    bads = [(k, t.line) for k, t in state_byp if k not in allowed_states]
+    rep.check(not bads, rid, 'state-based bypass only for CHG / DELETED', f.file, 'bypassing states %s' % sorted({k for k, _ in state_byp}) if not bads else 'blocks in state %s are not verified' % bads, function='state_check_process', construct='state bypass')
+
+
+def is_bad_sites(P, f, value):
+    """sites of `f` that register a failed[] entry with is_bad == value: inline stores `X.is_bad = value`, or calls of a helper
+    whose body stores one of its parameters into `.is_bad` and that receive the constant `value` for that parameter"""
+    res = [i for i in f.all_insts() if i.op == 'store' and f.expr(i.ops[1]).endswith('.is_bad') and f.const_of(i.ops[0]) == value]
+    for c in f.calls():
+        g = P.functions.get(c.callee_full) if c.callee_full else None
+        if g is None or g.decl or g is f:
+            continue
+        for st in g.all_insts():
+            if st.op == 'store' and g.expr(st.ops[1]).endswith('.is_bad'):
+                v = g.strip(st.ops[0])
+                # -O0: the parameter is spilled to an alloca and loaded back
+                k = None
+                if v[0] == 'a':
+                    k = v[1]
+                elif v[0] == 'i' and g.insts[v[1]].op == 'load':
+                    al = g.strip(g.insts[v[1]].ops[0])
+                    if al[0] == 'i':
+                        k = g.arg_allocas().get(al[1])
+                if k is not None and k < len(c.ops) and f.const_of(c.ops[k]) == value:
+                    res.append(c)
+    return res
